@@ -318,8 +318,8 @@ func C05(c *Ctx) {
 			c.R.Check(ok, "C05-R5", key, c.pos(st), "Limited only on the exhausted-counter edge", "Limited is reported elsewhere than at the exhausted step counter")
 		case 3: // BreakpointReached
 			ok := false
-			isVerdict := func(b *ssa.BasicBlock) bool {
-				for _, f := range flow.FactsAt(b) {
+			isVerdictX := func(b *ssa.BasicBlock, extra []flow.Fact) bool {
+				for _, f := range append(flow.FactsAt(b), extra...) {
 					if cl, isC := f.Cond.(*ssa.Call); isC && f.True && cl.Common().StaticCallee() == nil && !cl.Common().IsInvoke() {
 						if ssau.TypeIs(cl.Common().Value.Type(), prog.Abs("core"), "Breakpoint") {
 							return true
@@ -328,6 +328,7 @@ func C05(c *Ctx) {
 				}
 				return false
 			}
+			isVerdict := func(b *ssa.BasicBlock) bool { return isVerdictX(b, nil) }
 			ok = isVerdict(st.Block())
 			if !ok {
 				// the scan may live in a helper that returns true only under a breakpoint's verdict
@@ -338,7 +339,7 @@ func C05(c *Ctx) {
 					}
 					for ri := 0; ri < h.Signature.Results().Len(); ri++ {
 						if bt, isB := h.Signature.Results().At(ri).Type().Underlying().(*types.Basic); isB && bt.Kind() == types.Bool {
-							if trueImplies(h, ri, isVerdict) {
+							if trueImplies(h, ri, isVerdictX) {
 								ok = true
 							}
 						}
